@@ -4,6 +4,7 @@
 package e1
 
 import (
+	"os"
 	"context"
 	"fmt"
 	"math"
@@ -77,6 +78,9 @@ type GOpts struct {
 	After     func(L *lua.LState, out *GOutcome)
 	Args      []lua.LValue
 	KeepOpen  bool
+	// Shebang, when non-empty, makes the program come from a file whose first line is this text (it must start with
+	// '#'): LState.LoadFile skips that line and the line numbers stay those of the file
+	Shebang string
 }
 
 // RunGopher loads and runs src in a fresh state.
@@ -153,7 +157,11 @@ func RunGopher(src string, o *GOpts) (out *GOutcome) {
 	if o != nil && o.Proto != nil {
 		fn = L.NewFunctionFromProto(o.Proto)
 	} else {
-		fn, err = L.LoadString(src)
+		if o != nil && o.Shebang != "" {
+			fn, err = loadFromFile(L, o.Shebang+"\n"+src)
+		} else {
+			fn, err = L.LoadString(src)
+		}
 	}
 	if err != nil {
 		out.Failed = true
@@ -188,6 +196,31 @@ func RunGopher(src string, o *GOpts) (out *GOutcome) {
 		o.After(L, out)
 	}
 	return out
+}
+
+var fileDir string
+
+// loadFromFile writes text to a file called "<string>" (so that the chunk name is the one every message is compared
+// with) in a scratch directory that becomes the working directory, and loads it with LoadFile.
+func loadFromFile(L *lua.LState, text string) (*lua.LFunction, error) {
+	if fileDir == "" {
+		d := os.Getenv("VERIF_SCRATCH")
+		if d == "" {
+			d = os.TempDir()
+		}
+		d, err := os.MkdirTemp(d, "e1file")
+		if err != nil {
+			return nil, err
+		}
+		if err := os.Chdir(d); err != nil {
+			return nil, err
+		}
+		fileDir = d
+	}
+	if err := os.WriteFile("<string>", []byte(text), 0o644); err != nil {
+		return nil, err
+	}
+	return L.LoadFile("<string>")
 }
 
 // ---- reference side
@@ -340,6 +373,10 @@ func (d *ids) match(rv luaref.Value, gv lua.LValue) error {
 			}
 			return nil
 		}
+		if strings.HasPrefix(string(s), "[G]:") {
+			// a position prefix that names a host function instead of a line of the running statement
+			return fmt.Errorf("reference %s, gopher-lua %s: the position prefix names a host function", ShowR(rv), ShowG(gv))
+		}
 		if x.HasPos {
 			m := posRe.FindStringSubmatch(string(s))
 			if m == nil {
@@ -471,6 +508,21 @@ func Diff(src string) (Verdict, string, *ROutcome, *GOutcome) {
 		return v, d, r, nil
 	}
 	g := RunGopher(src, BudgetFor(r))
+	v, d := Compare(r, g)
+	return v, d, r, g
+}
+
+// DiffShebang is Diff with the program loaded from a file that starts with a '#' line; the reference sees a comment
+// line in its place.
+func DiffShebang(src string) (Verdict, string, *ROutcome, *GOutcome) {
+	r := RunRef("-- first line\n"+src, nil)
+	if r.ParseErr != nil || r.Unspecified != "" {
+		v, d := Compare(r, &GOutcome{})
+		return v, d, r, nil
+	}
+	o := BudgetFor(r)
+	o.Shebang = "#!/usr/bin/env lua -- skipped by LoadFile"
+	g := RunGopher(src, o)
 	v, d := Compare(r, g)
 	return v, d, r, g
 }
